@@ -1,9 +1,118 @@
-From Coq Require Import List String Ascii Bool ZArith.
-From Krrood Require Import Base.Sx Orm.SchemaStr Orm.SchemaSpec Gen.ParseField Orm.Schema Orm.SchemaProofs.
+(* Property C06 -- ORMatic produces a valid, complete SQLAlchemy layer for every supported model.
+   Only statements, each closed by [exact].  Model: Orm/Schema.v over Gen/ParseField.v (regenerated from
+   wrapped_table.py / ormatic.py / wrapped_field.py on every run); Spec: Orm/SchemaSpec.v.
+   [wfM] = the documented grammar; [topo M order] = the emission order lists every class once, parents first;
+   F = [F_selfcoll], [F_hasbuiltin], [F_attrnames], [F_classnames] (complement of the defect classes, see _refuted). *)
+From Coq Require Import List String Ascii Bool ZArith Permutation.
+From Krrood Require Import Base.Sx Orm.SchemaStr Orm.SchemaSpec Gen.ParseField Orm.Schema Orm.SchemaProofs Orm.SchemaWf.
 Import ListNotations.
 Open Scope string_scope.
+Open Scope list_scope.
 
-Theorem C06_one_dao_per_class : forall M order, map t_cls (s_tables (gen M order)) = map c_name order.
+(* one DAO per class: the tables are exactly the images of the classes, in emission order, none twice *)
+Theorem C06_one_dao_per_class : forall M order, topo M order ->
+  s_tables (gen M order) = map (table_of M) order
+  /\ map t_cls (s_tables (gen M order)) = map c_name order
+  /\ NoDup (map t_cls (s_tables (gen M order)))
+  /\ (forall c, In c M -> In (table_of M c) (s_tables (gen M order)))
+  /\ (forall t, In t (s_tables (gen M order)) -> exists c, In c M /\ t = table_of M c).
 Proof. exact one_dao_per_class. Qed.
 
+(* the DAO of a class derives from the DAO of its parent class (or from Base), and its key references the parent's key *)
+Theorem C06_mirrors_inheritance : forall M c,
+  t_name (table_of M c) = dao_of (c_name c) /\ t_cls (table_of M c) = c_name c /\ t_module (table_of M c) = c_module c
+  /\ t_base (table_of M c) = option_map (fun p => dao_of (c_name p)) (parent_of M c)
+  /\ t_pk_target (table_of M c) = match parent_of M c with Some p => pk_of (dao_of (c_name p)) | None => "" end.
+Proof. exact mirrors_inheritance. Qed.
+
+(* derived DAO classes are emitted after the class they derive from *)
+Theorem C06_bases_emitted_first : forall M order, topo M order -> wf_bases_first [] (s_tables (gen M order)) = true.
+Proof. exact bases_first. Qed.
+
+(* inherited-field elimination: the fields a table is built from are exactly the public fields the class declares
+   itself (not declared by any ancestor) *)
+Theorem C06_own_fields : forall M c, wfM M = true -> In c M -> parsed_fields M c = own_public_fields M c.
+Proof. exact parsed_fields_own. Qed.
+
+(* field coverage, stated against the ANNOTATION ([field_ok] / [kind_of] in the Spec): the columns, foreign keys,
+   relationships and association tables of a table are the concatenation, over its own public fields in declaration
+   order, of exactly what each annotation calls for; nothing comes from "_"-fields or inherited fields *)
+Theorem C06_field_coverage : forall M c, wfM M = true -> In c M ->
+  exists its,
+    Forall2 (field_ok dao_of pk_of M c) (own_public_fields M c) its
+    /\ t_builtin (table_of M c) = flat_map i_builtin its
+    /\ (exists disc, t_custom (table_of M c) = flat_map i_custom its ++ disc /\ (disc = [] \/ disc = [disc_column]))
+    /\ t_fks (table_of M c) = flat_map i_fks its
+    /\ t_rels (table_of M c) = flat_map i_rels its
+    /\ table_items M c = its.
+Proof. exact field_coverage. Qed.
+
+Theorem C06_no_generation_error : forall M order, wfM M = true -> (forall c, In c order -> In c M) ->
+  s_error (gen M order) = false.
+Proof. exact gen_no_error. Qed.
+
+(* static well-formedness *)
+Theorem C06_wf_assoc_columns : forall M order, wfM M = true -> F_selfcoll M = true -> (forall c, In c order -> In c M) ->
+  wf_assoc_columns (gen M order) = true.
+Proof. exact assoc_columns_distinct. Qed.
+
+Theorem C06_wf_polymorphic : forall M order, wfM M = true -> (forall c, In c order -> In c M) ->
+  wf_polymorphic (gen M order) = true.
+Proof. exact polymorphic_ok. Qed.
+
+Theorem C06_wf_imports : forall M order, wfM M = true -> F_hasbuiltin M = true -> topo M order ->
+  wf_imports (gen M order) = true.
+Proof. exact imports_closed. Qed.
+
+(* every foreign key, relationship target, secondary table, inheritance key and association column refers to something emitted *)
+Theorem C06_wf_fk_targets : forall M order, wfM M = true -> topo M order -> wf_fk_targets (gen M order) = true.
+Proof. exact fk_targets_exist. Qed.
+
+(* determinism: generation is a function of the model; the set of tables does not depend on the emission order *)
+Theorem C06_tables_order_independent : forall M o1 o2, Permutation o1 o2 ->
+  Permutation (s_tables (gen M o1)) (s_tables (gen M o2)).
+Proof. exact tables_order_independent. Qed.
+
+(* the defect classes: models of the grammar on which the generated layer is not well-formed *)
+Theorem C06_refuted_selfcoll : exists M order, wfM M = true /\ topo M order /\ wf_assoc_columns (gen M order) = false.
+Proof. exact refuted_selfcoll. Qed.
+Theorem C06_refuted_nobuiltin : exists M order, wfM M = true /\ topo M order /\ wf_imports (gen M order) = false.
+Proof. exact refuted_nobuiltin. Qed.
+Theorem C06_refuted_fkalias : exists M order, wfM M = true /\ topo M order /\ wf_attrs_unique (gen M order) = false.
+Proof. exact refuted_fkalias. Qed.
+Theorem C06_refuted_reserved : exists M order, wfM M = true /\ topo M order /\ wf_attrs_not_reserved (gen M order) = false.
+Proof. exact refuted_reserved. Qed.
+Theorem C06_refuted_pkname : exists M order, wfM M = true /\ topo M order /\ wf_attrs_unique (gen M order) = false.
+Proof. exact refuted_pkname. Qed.
+Theorem C06_refuted_discname : exists M order, wfM M = true /\ topo M order /\ wf_attrs_unique (gen M order) = false.
+Proof. exact refuted_discname. Qed.
+Theorem C06_refuted_casefold : exists M order, wfM M = true /\ topo M order /\ wf_table_names_unique (gen M order) = false.
+Proof. exact refuted_casefold. Qed.
+Theorem C06_refuted_assocname : exists M order, wfM M = true /\ topo M order /\ wf_table_names_unique (gen M order) = false.
+Proof. exact refuted_assocname. Qed.
+
+(* non-vacuity: a model with inheritance, a redeclared inherited field, references, collections and a private field is in
+   the grammar and in F; its schema is statically well-formed and is read back exactly as the Spec says *)
+Example C06_nonvacuous : wfM M_example = true /\ inF M_example = true /\ topo M_example M_example
+  /\ schema_wf (gen M_example M_example) = true /\ model_obs (gen M_example M_example) = spec_obs M_example.
+Proof. exact example_ok. Qed.
+
 Print Assumptions C06_one_dao_per_class.
+Print Assumptions C06_mirrors_inheritance.
+Print Assumptions C06_bases_emitted_first.
+Print Assumptions C06_own_fields.
+Print Assumptions C06_field_coverage.
+Print Assumptions C06_no_generation_error.
+Print Assumptions C06_wf_assoc_columns.
+Print Assumptions C06_wf_polymorphic.
+Print Assumptions C06_wf_imports.
+Print Assumptions C06_wf_fk_targets.
+Print Assumptions C06_tables_order_independent.
+Print Assumptions C06_refuted_selfcoll.
+Print Assumptions C06_refuted_nobuiltin.
+Print Assumptions C06_refuted_fkalias.
+Print Assumptions C06_refuted_reserved.
+Print Assumptions C06_refuted_pkname.
+Print Assumptions C06_refuted_discname.
+Print Assumptions C06_refuted_casefold.
+Print Assumptions C06_refuted_assocname.
